@@ -13,3 +13,45 @@ Theorem C06_single_hit_roundtrip_partial : forall d n, d < 2 ^ 31 -> n < 2 ^ 31 
   dec1hit (enc1hit d n) = (d, n) /\ is1hit (enc1hit d n) = true.
 Proof. exact onehit_roundtrip. Qed.
 Print Assumptions C06_single_hit_roundtrip_partial.
+
+(* the enumerator that drives the term loop of every dictionary / thesaurus merge (Enum.v mirrors
+   enumerator.go: updateMatches with its lowK / lowIdxs accumulators, Next with skipEmptyKey, the
+   (nil, 0) test for exhausted iterators); tied to the code by the correspondence run through the
+   verif hook VerifEnumerate (real vellum FSTs).  For any number of iterators with strictly
+   ascending keys and no ("", 0) entry, the tuples produced are exactly the entries of the inputs
+   (membership both ways), in strictly ascending (key, iterator index) order - hence each once. *)
+Require ZV.Enum ZV.EnumProof.
+Theorem C06_enumerator_ordered_union : forall its : list (list Enum.kv),
+  List.Forall EnumProof.asc its -> EnumProof.nozero its ->
+  EnumProof.sorted_t (Enum.enumerate its) /\
+  (forall k i v, List.In (k, i, v) (Enum.enumerate its) <-> exists l, List.nth_error its i = Some l /\ List.In (k, v) l).
+Proof. exact EnumProof.enumerate_spec. Qed.
+Print Assumptions C06_enumerator_ordered_union.
+
+Theorem C06_enumerator_each_once : forall l, EnumProof.sorted_t l -> List.NoDup l.
+Proof. exact EnumProof.sorted_t_nodup. Qed.
+Print Assumptions C06_enumerator_each_once.
+
+(* the term loop consuming the enumerator (MergeLoop.v mirrors the loop in
+   mergeAndPersistInvertedSection: postings of consecutive tuples with one key are appended,
+   finishTerm on every key change and at the end, nothing inserted when nothing survived), and the
+   refinement: for every key, the dictionary this algorithm builds holds exactly what the executable
+   specification SpecMerge.merge_dict holds - the specification the correspondence run compares
+   with the files zapx writes.  `rel_from` relates iterator i to the i-th input dictionary that has
+   the field: same keys in the same order, and the surviving postings behind a value are the
+   specification's remapping of that entry's hits. *)
+Require ZV.MergeLoop ZV.MergeRefine ZV.SpecMerge ZV.Spec.
+Theorem C06_merge_algorithm_refines_spec :
+  forall (pl : nat -> N -> list Spec.hit) its cms f k,
+  List.Forall EnumProof.asc its -> EnumProof.nozero its ->
+  MergeRefine.rel_from Spec.hit pl 0 its (MergeRefine.dgs_of cms f) ->
+  List.Forall (fun dg : list (Spec.str * list Spec.hit) * (list Spec.hit -> list Spec.hit) => MergeRefine.skeys (fst dg)) (MergeRefine.dgs_of cms f) ->
+  MergeLoop.assoc Spec.hit k (MergeLoop.merge_dict Spec.hit pl its) =
+  MergeRefine.oget Spec.hit (Spec.mget k (SpecMerge.merge_dict cms f)).
+Proof. exact MergeRefine.C06_merge_algorithm_refines_spec. Qed.
+Print Assumptions C06_merge_algorithm_refines_spec.
+
+Theorem C06_merged_dictionary_keys_ascending : forall (pl : nat -> N -> list Spec.hit) ts,
+  EnumProof.sorted_t ts -> MergeLoop.asc_out Spec.hit None (MergeLoop.loop Spec.hit pl None nil ts).
+Proof. exact (MergeLoop.merge_loop_ascending Spec.hit). Qed.
+Print Assumptions C06_merged_dictionary_keys_ascending.
